@@ -8,7 +8,6 @@
 (* extra value / a long key id, and as a claims set with a long issuer.    *)
 (***************************************************************************)
 EXTENDS Cose, Json, TLC
-LOCAL INSTANCE SequencesExt
 
 Rep(x, n) == [i \in 1..n |-> x]
 HeadN(mj, n) == Hd(mj, MagOfNat(n))
@@ -31,12 +30,11 @@ Cases ==
         <<"bad-before-pull-end", Rep(97, 4090) \o <<255>> \o Rep(97, 100)>>}  \* more than 3 bytes before the pull boundary
 
 (* the cases are judged in a SUCCESSOR state: TLC evaluates initial states on its small main-thread stack *)
-CaseSeq == SetToSeq(Cases)
-VARIABLES k, go
-Init == k \in 1..Len(CaseSeq) /\ go = FALSE
-Next == ~go /\ go' = TRUE /\ UNCHANGED k
-Spec == Init /\ [][Next]_<<k, go>>
-c == CaseSeq[k]
+VARIABLES cs, go
+Init == cs \in Cases /\ go = FALSE
+Next == ~go /\ go' = TRUE /\ UNCHANGED cs
+Spec == Init /\ [][Next]_<<cs, go>>
+c == cs
 
 P == c[2]
 Valid == Utf8Valid(P)
